@@ -133,6 +133,9 @@ def _attach_parent_to_expr(expr: expressions.Expr | str | None, parent: Module |
         # Only the leftmost part is resolved in the scope, the other parts are linked to each other.
         _attach_parent_to_expr(expr.first, parent)
     else:
+        if isinstance(expr, expressions.ExprKeyword):
+            # The called function is referenced by the keyword (for its canonical path), but not iterated.
+            _attach_parent_to_expr(expr.function, parent)
         # Recurse in sub-expressions, whatever their depth.
         for elem in expr:
             if elem is not expr:
